@@ -61,6 +61,8 @@ def decode80 (se m : Nat) : FVal :=
   let ex : Nat := se % 2 ^ 15
   if ex == 2 ^ 15 - 1 then (if m == 2 ^ 63 then .inf s else .nan s)
   else if ex == 0 then (if m == 0 then .zero s else .fin s m (1 - 16383 - 63))
+  -- an UNNORMAL (non-zero exponent, integer bit clear) is not a number: LLVM reads it as a NaN, and so does NewFloatFromString
+  else if m < 2 ^ 63 then .nan s
   else .fin s m ((ex : Int) - 16383 - 63)
 
 /-- canonical encodings: integer bit set exactly for normal numbers (and for infinity) -/
@@ -69,7 +71,7 @@ def canonical80 (se m : Nat) : Bool :=
   se < 2 ^ 16 && m < 2 ^ 64 &&
   (if ex == 2 ^ 15 - 1 then true else if ex == 0 then m < 2 ^ 63 else m ≥ 2 ^ 63)
 
-def isNaN80 (se m : Nat) : Bool := se % 2 ^ 15 == 2 ^ 15 - 1 && m != 2 ^ 63
+def isNaN80 (se m : Nat) : Bool := (se % 2 ^ 15 == 2 ^ 15 - 1 && m != 2 ^ 63) || (se % 2 ^ 15 != 0 && se % 2 ^ 15 != 2 ^ 15 - 1 && m < 2 ^ 63)
 
 def encode80 : FVal → Nat × Nat
   | .zero s => ((if s then 2 ^ 15 else 0), 0)
